@@ -4,6 +4,7 @@ MCConns == {"c1", "c2"}
 MCAddrOf == ("c1" :> "a1") @@ ("c2" :> "a2")          \* the address a connection was accepted from
 MCHopOf == ("c1" :> "a1") @@ ("c2" :> "h1")           \* response hop of its requests: the true source (received-support) / the announced sent-by
 MCDests == {"a1", "a2", "h1"}
-MCTxs == {"t1", "t2"}
-MCTicks == {30, 60, 3600}
+MCTxs == {"t1"}
+MCTicks == {60, 3600}
+SimTxs == {"t1", "t2", "t3"}
 =============================================================================
